@@ -1,4 +1,5 @@
 import ArroyProofs.AuditCmd
 import ArroyProofs.Properties.C16
 import ArroyProofs.Properties.C16Codec
+import ArroyProofs.Properties.C16Reachable
 #audit Arroy.C16
